@@ -81,6 +81,9 @@ def check(ctx: Ctx) -> str:
     from . import c03
 
     ctx.run_imported("C03", {"R1", "R7", "R6"}, c03.check)
+    from ..lexrules import delimiters_escaped_rule
+
+    delimiters_escaped_rule(ctx, "R16")
     return __doc__ or ""
 
 
